@@ -7,7 +7,12 @@ rendered source `call(a)` (cv/gen/c18_helpers.py) at the observation levels
      corners + walking ones + the drawn samples
   T  traced inside `@std.concurrent` on constants, captured by a `@cohdl.pyeval` probe
      (a handful of valuations per case: tracing costs ~0.1 s per call)
-  S  structural for now: the wrapper entity `render_sim_entity(helper, config)` compiles
+  S  simulated emitted logic (cv.vhdl): the concurrent wrapper `render_sim_entity(helper, config)`
+     (arguments on input ports, result on output ports) over the same valuations (at most 1024,
+     evenly spread); the CRC wrapper is clocked: clear, then k message bits per rising edge.
+     The only level that reaches count_set_bits / count_clear_bits and invert_result CRC.
+     A finding at S is named "S!=P" / "S!=T" when that level had the right value for the same
+     valuation, plain "S" otherwise.
 
 and compared with cv.ref.helpers (definitions transcribed from the docstrings in
 cohdl/std/_core_utility.pyi).  A cohdl exception is `rejected` for that level.
@@ -31,7 +36,7 @@ PROPERTY = "C18"
 TECHNIQUE = (
     "property-based testing: per-helper configuration spaces (enumerated completely in the thorough tier, sampled by "
     "Hypothesis in the quick tier) x exhaustive / corner / drawn argument values against independent mathematical "
-    "reference definitions; plain-Python and traced-constant observation, structural compile of the simulation wrapper"
+    "reference definitions; plain-Python, traced-constant and simulated-VHDL observation"
 )
 RULE = (
     "case = helper (37 entries: popcounts, leading/trailing counts, one_hot/is_one_hot, reverse_bits, rol/ror, "
@@ -51,7 +56,11 @@ ASSUMPTIONS = [
     "first extremum wins is observed through min/max_element, min/max_index and through `key=` functions that ignore the lsb",
     "the CRC register is a Signal: observed at plain-Python level only (Signal <<= takes effect immediately there); "
     "definition = remainder of message*x^n (+ init*x^len) modulo x^n+poly by long division",
-    "level S is structural for now (wrapper entity compiles); simulated values are added by a later shard",
+    "level S: cv.vhdl is the trusted simulator; static errors of the emitted VHDL are blocked_by_static (owned by C06), "
+    "constructs outside its subset are blocked; a VHDL run-time error or an undefined output for an admissible "
+    "valuation is a violation (kind sim_error / undefined)",
+    "level S runs on two thirds of the cases (hash of helper+configuration) and on every case of the helpers that "
+    "have no P or no T level (popcounts, crc, is_one_hot, select, apply_mask)",
 ]
 LEVEL = "exploration"
 
